@@ -1,41 +1,28 @@
 /-
 Line-protocol dispatch: model ops and oracle ops. Core Lean only (compiled into the `driver` exe).
   model line :  <op> <hexarg>...                      → canonical result
-  oracle line:  O|<op> <hexarg>...|<real result>      → pass | fail:<clause>
+  oracle line:  O|<op> <hexarg>...|<real result>      → pass | fail:<clause>[:<signature>]
+Each property contributes a module `SafeHtml.Ops.Cxx` with `model` and `oracle`; register it below.
 -/
-import SafeHtml.Model.Identifier
-import SafeHtml.Oracle.C18
+import SafeHtml.Ops.C18
 namespace SafeHtml.Driver
 open SafeHtml
 
-def optRes : Option Bytes → String
-  | some b => "ok " ++ hexOf b
-  | none => "panic"
+def models : List (String → List Bytes → Option String) :=
+  [Ops.C18.model]
 
-/-- parse a real result of the form `ok <hex>` / `panic` -/
-def parseOptRes (f : List String) : Option (Option Bytes) :=
-  match f with
-  | ["panic"] => some none
-  | ["ok", h] => (unhex h).map some
-  | _ => none
+def oracles : List (String → List Bytes → List String → Option String) :=
+  [Ops.C18.oracle]
 
 def runModel (op : String) (a : List Bytes) : String :=
-  match op, a with
-  | "ident.const", [v] => optRes (Model.identifierFromConstant v)
-  | "ident.prefix", [p, v] => optRes (Model.identifierFromConstantPrefix p v)
-  | _, _ => "bad-op"
+  match models.findSome? (fun f => f op a) with
+  | some r => r
+  | none => "bad-op"
 
 def runOracle (op : String) (a : List Bytes) (real : List String) : String :=
-  match op, a with
-  | "ident.const", [v] =>
-    match parseOptRes real with
-    | some r => Oracle.C18.const v r
-    | none => "fail:unparsable-real-result"
-  | "ident.prefix", [p, v] =>
-    match parseOptRes real with
-    | some r => Oracle.C18.pref p v r
-    | none => "fail:unparsable-real-result"
-  | _, _ => "bad-op"
+  match oracles.findSome? (fun f => f op a real) with
+  | some r => r
+  | none => "bad-op"
 
 def splitFields (s : String) : List String :=
   (s.splitOn " ").filter (· ≠ "")
